@@ -129,17 +129,20 @@ Print Assumptions C10_compile_wellformed_partial_strong.
      program_utf8 M o            the strings the compiler copies into the data section (string literals,
                                  native function names, names of ReadVar / SetVar cards - their
                                  `.`-separated suffixes become string literals) are valid UTF-8
-                                 (true for every module built from Rust `String`s; the theorem shows that
+                                 (true for every module built from Rust `String`s; the proof shows that
                                  cutting at '.' keeps the pieces valid);
      bytecode < 2^31 bytes       jump operands are `bytecode.len() as i32`;
-     data < 2^32 bytes           string operands are `data.len() as u32`;
-     fewer than 2^32 globals     `next_var` is a u32 counter (wrapping);
-     var_handles_collision_free  Handle::from_u32 is injective on the variable ids 0 .. n-1 in use
-                                 (keys of `variables.names`; a collision would make the compiler drop a
-                                 name).  No injectivity of Handle::from_str on the NAMES is needed: two
-                                 names with the same hash share one id and the tables stay mutually inverse.
+     data < 2^32 bytes           string operands are `data.len() as u32`.
+   No hypothesis on hash collisions is needed:
+   - the number of globals is bounded by the code size (C10_few_globals: every new id is followed by a
+     5-byte instruction), so the u32 counter `next_var` does not wrap;
+   - Handle::from_u32 is injective on 0 .. 2^32 - 2 (C10_from_u32_injective), so the ids in use have
+     pairwise distinct keys in `variables.names`;
+   - two variable NAMES with the same Handle::from_str hash share one id and the name of the first; the
+     tables stay mutually inverse in the sense of [wellformed] (the second name is not recorded: that is
+     a property of the language, not of the bytecode's validity).
    New with respect to C10_compile_wellformed_partial_strong, all proved as invariants of the
-   compilation state threaded through process_card (CompilerFull.Inv3):
+   compilation state threaded through process_card (CompilerFull.Inv3, next to CompilerOk.Inv2):
    (1) every string operand (StringLiteral, NativeFunctionPointer, property shorthands) is the offset of a
        complete length-prefixed entry of the data section with valid UTF-8 payload, and read_str returns it;
    (2) every local / upvalue index, both halves of RegisterUpvalue, CloseUpvalue's operand and the five
@@ -148,8 +151,9 @@ Print Assumptions C10_compile_wellformed_partial_strong.
        repetition, `variables.ids` and `variables.names` are mutually inverse.
    Not proved (not part of [wellformed]; see the comment at Wellformed.index_ok): that a local index is
    below the number of locals its own function has declared at that point, and that RegisterUpvalue's index
-   refers to an existing local / upvalue of the enclosing function - the checker does not track functions. *)
-From Cao Require Import WellformedSide CompilerFull.
+   refers to an existing local / upvalue of the enclosing function - the bytecode does not declare the
+   number of locals of a function, so this is not a property of the output alone. *)
+From Cao Require Import WellformedSide CompilerFull HandleInj.
 Theorem C10_compile_wellformed :
   forall (M : module) (o : options) (B : compiled),
     compile M o = COk B ->
@@ -157,11 +161,22 @@ Theorem C10_compile_wellformed :
     program_utf8 M o = true ->
     (N.of_nat (length (p_bytecode B)) < 2147483648)%N ->
     (N.of_nat (length (p_data B)) < 4294967296)%N ->
-    (N.of_nat (length (p_ids B)) < 4294967296)%N ->
-    var_handles_collision_free (length (p_ids B)) = true ->
     wellformed_gen false B.
 Proof. exact compile_wellformed. Qed.
 Print Assumptions C10_compile_wellformed.
+
+Theorem C10_from_u32_injective :
+  forall i j : N, (i < 4294967295)%N -> (j < 4294967295)%N -> handle_from_u32 i = handle_from_u32 j -> i = j.
+Proof. exact handle_from_u32_inj. Qed.
+Print Assumptions C10_from_u32_injective.
+
+Theorem C10_few_globals :
+  forall (M : module) (o : options) (B : compiled),
+    compile M o = COk B -> program_in_range M o = true -> program_utf8 M o = true ->
+    (N.of_nat (length (p_bytecode B)) < 2147483648)%N ->
+    (5 * N.of_nat (length (p_ids B)) <= N.of_nat (length (p_bytecode B)))%N.
+Proof. exact compile_few_globals. Qed.
+Print Assumptions C10_few_globals.
 
 (* a concrete instance (global, local captured by a closure, property shorthands, for-each, native
    function pointer, a non-ASCII string literal): the side conditions evaluate to true and the
